@@ -104,6 +104,18 @@ def loop (env : Env) : List Constraint → Val → Val × List Entry
     | some (v, e) => let (v', es) := loop env cs v; (v', e :: es)
     | none => loop env cs cur
 
+/-- `type(current_value) is type(value) and current_value == value` for a value that was repaired
+(the original is then a `str`): both are the same text. -/
+def sameText : Val → Val → Bool
+  | .str a, .str b => a == b
+  | _, _ => false
+
+/-- the end of `repair_value` (commit 9d272b4): a chain of repairs that ends where it started changed
+nothing — its log entries are deleted again (`del repair_log.repairs[log_start:]`) and the value is
+reported as not repaired. -/
+def settle (value : Val) (r : Val × List Entry) : Val × List Entry :=
+  if !r.2.isEmpty && sameText r.1 value then (value, []) else r
+
 /-- `repair_value(value, field_def, repair_log, fix)`: new value and the entries logged.
 `was_repaired` is `entries ≠ []` (every successful attempt logs exactly one entry). -/
 def repairValue (env : Env) (value : Val) (fd : Option FieldDef) (fix : Bool) : Val × List Entry :=
@@ -118,7 +130,7 @@ def repairValue (env : Env) (value : Val) (fd : Option FieldDef) (fix : Bool) : 
         | some ch =>
           if ch.cs.isEmpty then (value, [])
           else if value.isNone then (value, [])
-          else loop env ch.cs value
+          else settle value (loop env ch.cs value)
 
 mutual
 /-- `_repair_ast_node`. -/
